@@ -163,6 +163,104 @@ fn arrays<const N: usize>() {
 	}
 }
 
+/// The remaining `unsafe` sites: the transmuting bulk encoder, the bulk array/vector readers
+/// (`set_len` before `read`, `Vec<$ty>` -> `Vec<T>` transmute), the fixed-capacity compact buffer,
+/// the zero-copy shared buffer - round trips, short inputs, and lengths crossing a 16 KiB chunk.
+fn unsafe_paths() {
+	use parity_scale_codec::{Compact, CompactLen, EncodeAppend};
+	fn rt<T: Encode + Decode + PartialEq + std::fmt::Debug>(name: &str, v: T) {
+		println!("CASE roundtrip {}", name);
+		let bytes = v.encode();
+		assert_eq!(v.using_encoded(|s| s.to_vec()), bytes, "{}", name);
+		assert_eq!(v.encoded_size(), bytes.len(), "{}", name);
+		let mut s = &bytes[..];
+		assert_eq!(T::decode(&mut s).ok().as_ref(), Some(&v), "{}", name);
+		assert!(s.is_empty(), "{}", name);
+		// through a reader of unknown length, and truncated
+		let mut io = parity_scale_codec::IoReader(std::io::Cursor::new(&bytes[..]));
+		assert_eq!(T::decode(&mut io).ok().as_ref(), Some(&v), "{} (IoReader)", name);
+		if !bytes.is_empty() {
+			assert!(T::decode(&mut &bytes[..bytes.len() - 1]).is_err(), "{} truncated", name);
+			let mut io = parity_scale_codec::IoReader(std::io::Cursor::new(&bytes[..bytes.len() - 1]));
+			assert!(T::decode(&mut io).is_err(), "{} truncated (IoReader)", name);
+		}
+		unsafe { CASES += 1 };
+	}
+	macro_rules! prims {
+		($($t:ty),*) => {$(
+			let chunk = 16384 / core::mem::size_of::<$t>();
+			rt(concat!("Vec<", stringify!($t), "> small"), (0..7).map(|i| (i * 37) as $t).collect::<Vec<$t>>());
+			if cfg!(feature = "full") && core::mem::size_of::<$t>() >= 8 {
+				rt(concat!("Vec<", stringify!($t), "> across a chunk"), (0..chunk + 3).map(|i| (i % 251) as $t).collect::<Vec<$t>>());
+			}
+			let _ = chunk;
+			rt(concat!("[", stringify!($t), "; 5]"), [1 as $t, 2 as $t, 3 as $t, 4 as $t, 5 as $t]);
+			rt(concat!("Box<[", stringify!($t), "; 3]>"), Box::new([9 as $t, 8 as $t, 7 as $t]));
+			{
+				let mut dq: VecDeque<$t> = VecDeque::with_capacity(8);
+				for i in 0..6 { dq.push_back(i as $t); }
+				for _ in 0..4 { dq.pop_front(); }
+				for i in 0..5 { dq.push_back((i + 10) as $t); }
+				rt(concat!("VecDeque<", stringify!($t), "> wrapped"), dq);
+			}
+			rt(concat!("(u8, Vec<", stringify!($t), ">) misaligned start"), (7u8, vec![1 as $t, 2 as $t, 3 as $t]));
+		)*};
+	}
+	prims!(u8, i8, u16, i16, u32, i32, u64, i64, u128, i128, f32, f64);
+	for x in [0u128, 63, 64, 16383, 16384, (1 << 30) - 1, 1 << 30, u32::MAX as u128, 1 << 32, u64::MAX as u128, 1 << 64, 1 << 72, u128::MAX] {
+		println!("CASE compact {}", x);
+		if x <= u8::MAX as u128 { rt("Compact<u8>", Compact(x as u8)); }
+		if x <= u16::MAX as u128 { rt("Compact<u16>", Compact(x as u16)); }
+		if x <= u32::MAX as u128 { rt("Compact<u32>", Compact(x as u32)); }
+		if x <= u64::MAX as u128 { rt("Compact<u64>", Compact(x as u64)); }
+		rt("Compact<u128>", Compact(x));
+		assert_eq!(Compact::<u128>::compact_len(&x), Compact(x).encode().len());
+	}
+	rt("String", String::from("héllo wörld €"));
+	if cfg!(feature = "full") {
+		rt("String across a chunk", "aé".repeat(5500));
+	}
+	rt("Vec<String>", vec![String::from("a"), String::new(), String::from("ccc")]);
+	rt("Vec<Option<Box<u16>>>", vec![Some(Box::new(5u16)), None, Some(Box::new(7))]);
+	rt("BTreeMap<u8, Vec<u32>>", [(1u8, vec![1u32, 2]), (2, vec![])].into_iter().collect::<BTreeMap<_, _>>());
+	{
+		use bitvec::prelude::*;
+		let mut bv = BitVec::<u8, Lsb0>::new();
+		for i in 0..21 { bv.push(i % 3 == 0); }
+		rt("BitVec<u8, Lsb0>", bv.clone());
+		rt("BitVec<u8, Lsb0> tail", BitVec::<u8, Lsb0>::from_bitslice(&bv[3..]));
+		let mut bw = BitVec::<u64, Msb0>::new();
+		for i in 0..131 { bw.push(i % 5 == 0); }
+		rt("BitVec<u64, Msb0>", bw.clone());
+		rt("BitBox<u64, Msb0> tail", BitBox::<u64, Msb0>::from_bitslice(&bw[7..]));
+		if cfg!(feature = "full") {
+			rt("BitVec<u64, Lsb0> across a chunk", BitVec::<u64, Lsb0>::repeat(true, 16384 * 8 + 40));
+		}
+	}
+	{
+		println!("CASE shared buffer");
+		let v = (3u8, bytes::Bytes::from(vec![1u8, 2, 3]), bytes::Bytes::new(), 9u16);
+		let enc = v.encode();
+		let d: (u8, bytes::Bytes, bytes::Bytes, u16) = parity_scale_codec::decode_from_bytes(bytes::Bytes::from(enc.clone())).unwrap();
+		assert_eq!(d, v);
+		assert!(parity_scale_codec::decode_from_bytes::<(u8, bytes::Bytes, bytes::Bytes, u16)>(bytes::Bytes::from(enc[..enc.len() - 1].to_vec())).is_err());
+		assert!(parity_scale_codec::decode_from_bytes::<(u8, bytes::Bytes)>(bytes::Bytes::from(vec![3u8, 16, 1, 2])).is_err());
+		unsafe { CASES += 1 };
+	}
+	{
+		println!("CASE append");
+		let mut enc = Vec::<u32>::new().encode();
+		let mut all = vec![];
+		for batch in [vec![1u32, 2], vec![], (0..70).collect::<Vec<u32>>(), vec![9]] {
+			enc = <Vec<u32> as EncodeAppend>::append_or_new(enc, &batch).unwrap();
+			all.extend(batch);
+			assert_eq!(enc, all.encode());
+		}
+		assert!(<Vec<u32> as EncodeAppend>::append_or_new(vec![0xff, 0xff], &[1u32]).is_err());
+		unsafe { CASES += 1 };
+	}
+}
+
 fn main() {
 	arrays::<0>();
 	arrays::<1>();
@@ -277,5 +375,6 @@ fn main() {
 	observe("Vec<u32> bulk short", || <Vec<u32>>::decode(&mut &[8 << 2, 1, 2, 3, 4, 5][..]));
 	observe("Vec<u16> bulk", || <Vec<u16>>::decode(&mut &[2 << 2, 1, 2, 3, 4][..]));
 	observe("String", || String::decode(&mut &[3 << 2, b'a', 0xff, b'c'][..]));
+	unsafe_paths();
 	println!("MIRI-OK {}", unsafe { CASES });
 }
